@@ -18,6 +18,15 @@ def cb(rng):
     return v if rng.random() < 0.6 else -v
 
 
+def xb(rng):
+    k = rng.random()
+    if k < 0.75:
+        return rng.choice([-1024, -1023, -1000, 1000, 1023, 1024])
+    if k < 0.9:
+        return rng.choice([0, 1, -1, 2, -2])
+    return cb(rng)
+
+
 def eb(rng):
     return rng.choice(B) if rng.random() < 0.8 else rng.randrange(0, 1025)
 
@@ -197,6 +206,13 @@ def search(tier, rng):
                 case = J('tri', *[v for p in pts for v in p], 'S', 0, 0, 0, 0)
             else:
                 case = J('poly', 0, 0, 3, *[v for p in pts for v in p], 'S', 0, 0, 0, 0)
+        elif fam in ('tri', 'poly', 'line') and rng.random() < 0.45:
+            # vertices in the corners / on the edges of the +-1024 square: the largest products and determinants
+            case = zoo_case(rng, fam, c=xb, e=e, maxw=0, absolute=True)
+            if fam == 'poly':
+                # zoo_case halves polyline coordinates; rebuild with full-range vertices
+                nv = rng.choice([2, 3, 3, 4, 5])
+                case = J('poly', 0, 0, nv, *[xb(rng) for _ in range(2 * nv)], 'S', 0, 0, 0, 0)
         else:
             case = zoo_case(rng, fam, c=cb, e=e, maxw=0, absolute=True)
         if ' S ' in case:
